@@ -297,6 +297,52 @@ fn cases(full: bool) -> Vec<Case> {
             v.push(c);
         }
     }
+    // ---------- homosegmented group-contribution set: the molecules listed in the other order (binary segment records written in
+    // one orientation only, so that one of the two orders meets them reversed)
+    {
+        use feos::pcsaft::PcSaftRecord;
+        use feos_core::parameter::{BinaryRecord, ChemicalRecord, Identifier, SegmentRecord};
+        let segs: [(&str, f64, f64, f64, f64); 3] =
+            [("CH3", 0.61198, 3.7202, 229.90, 15.035), ("CH2", 0.45606, 3.8900, 239.01, 14.027), ("OH", 0.40200, 3.2859, 488.66, 17.007)];
+        let mols: [&[&str]; 2] = [&["CH3", "CH2", "CH2", "OH"], &["CH3", "CH2", "CH2", "CH3"]];
+        let kseg: [(&str, &str, f64); 2] = [("OH", "CH3", 0.04), ("OH", "CH2", -0.03)];
+        let build = |order: [usize; 2]| {
+            let simple = |m: f64, s: f64, e: f64| PcSaftRecord::new(m, s, e, None, None, None, None, None, None, None, None, None, None);
+            let seg_records: Vec<_> = segs.iter().map(|&(id, m, s, e, mw)| SegmentRecord::new(id.to_string(), mw, simple(m, s, e))).collect();
+            let chem: Vec<_> = order.iter().map(|&i| ChemicalRecord::new(Identifier::default(), mols[i].iter().map(|s| s.to_string()).collect(), None)).collect();
+            let bin: Vec<_> = kseg.iter().map(|&(a, b, k)| BinaryRecord::new(a.to_string(), b.to_string(), k)).collect();
+            PcSaft::new(Arc::new(PcSaftParameters::from_segments(chem, seg_records, Some(bin)).unwrap()))
+        };
+        let map = Box::new(|s: &RState, _: &mut Rng| RState { t: s.t, v: s.v, n: vec![s.n[1], s.n[0]] });
+        let mut c = case("permute_gc_homosegmented", "permute", false, 2, 480.0, build([0, 1]), build([1, 0]), map, vec![(0, 0), (1, 1), (2, 3), (3, 2)]);
+        c.canon = Some((4, vec![0, 1, 2, 3], vec![0, 1, 3, 2], vec![false; 4]));
+        v.push(c);
+    }
+    // ---------- Helmholtz energy functionals used as bulk models: pure-component fast path vs the mixture path with a second component
+    // at zero moles (dipolar chain with m > 2; associating; with every FMT version in the thorough tier)
+    {
+        use feos::hard_sphere::FMTVersion;
+        use feos::pcsaft::PcSaftFunctional;
+        use feos_core::parameter::Parameter;
+        let inert = configs::pcsaft_params(&["propane"], "gross2001.json", None);
+        for (nm, lit) in [("dipole_m_gt_2", configs::pcsaft_literal("dipole_m_gt_2")), ("quadrupole_m_gt_2", configs::pcsaft_literal("quadrupole_m_gt_2")),
+                          ("water", configs::pcsaft_params(&["water"], "gross2002.json", None))] {
+            let (p1, _) = lit.records();
+            let (p2, _) = inert.records();
+            let single = || PcSaftParameters::from_records(vec![p1[0].clone()], None).unwrap();
+            let both = || PcSaftParameters::from_records(vec![p1[0].clone(), p2[0].clone()], None).unwrap();
+            let vers: Vec<(&str, FMTVersion)> = if full { vec![("wb", FMTVersion::WhiteBear), ("aswb", FMTVersion::AntiSymWhiteBear), ("kr", FMTVersion::KierlikRosinberg)] } else { vec![("wb", FMTVersion::WhiteBear)] };
+            for (vn, ver) in vers {
+                let map = Box::new(|s: &RState, _: &mut Rng| RState { t: s.t, v: s.v, n: vec![s.n[0], 0.0] });
+                let mut c = case(&format!("pad_functional_{vn}_{nm}"), "pad", false, 1, 500.0,
+                    PcSaftFunctional::new_full(Arc::new(single()), ver), PcSaftFunctional::new_full(Arc::new(both()), ver), map, vec![]);
+                // values only: the derivative PROGRAM of the mixture functional is not defined at a partial density of exactly zero
+                // (the real dual-number code is: it takes the branches recorded in the trace)
+                c.canon = Some((4, vec![0, 1, 2], vec![0, 1, 2, 3], vec![false, false, false, true]));
+                v.push(c);
+            }
+        }
+    }
     // ---------- splitting one component into two identical ones
     let split_case = |name: &str, p: PcSaftParameters, i: usize, t_scale: f64| -> Case {
         let n = p.m.len();
